@@ -67,7 +67,7 @@ Fixpoint parts_sorted (parts : list (Z * Z)) : Prop :=
   end.
 
 (* ---------- lyplg_type_store_boolean() (text formats) ----------
-   value_len == 4 && !strncmp(value, "true", 4) -> 1; value_len == 5 && !strncmp(value, "false", 5) -> 0;
+   value_len == 4 && !strncmp(value, true, 4) -> 1; value_len == 5 && !strncmp(value, false, 5) -> 0 (string literals true / false);
    anything else is an error. No white space is tolerated. The canonical string is the value itself. *)
 Definition s_true : bytes := [116;114;117;101].
 Definition s_false : bytes := [102;97;108;115;101].
